@@ -1,0 +1,1 @@
+//! Hooks owned by property C02 (feature `verif-hooks`).
